@@ -445,6 +445,24 @@ fn gen_regs(rng: &mut Rng, cfg: &GenCfg, k: &Knobs, resmap: &[RKey], budget: &mu
             placed += 1;
             continue;
         }
+        // "filler" burst: one heavy system next to a run of light systems that all conflict on one
+        // resource - the shape that makes a group grow to its capacity (a group is joined only by
+        // a single-conflict system that improves the balance, and only below four members)
+        if k.chain && k.nres >= 2 && *budget >= 7 && rng.chance(1, 6) {
+            let x = rng.below(k.nres as u64) as usize;
+            let y = (x + 1 + rng.below(k.nres as u64 - 1) as usize) % k.nres;
+            let heavy = gen_name(rng, &mut names, k);
+            regs.push(Reg::Sys { name: heavy, deps: vec![], reads: vec![], writes: vec![y], hint: 5 });
+            let n = 4 + rng.below(3) as usize;
+            for j in 0..n {
+                let nm = gen_name(rng, &mut names, k);
+                let (reads, writes) = if j % 3 == 2 && rng.chance(1, 2) { (vec![x], vec![]) } else { (vec![], vec![x]) };
+                regs.push(Reg::Sys { name: nm, deps: vec![], reads, writes, hint: 1 });
+            }
+            *budget -= n + 1;
+            placed += n + 1;
+            continue;
+        }
         let name = gen_name(rng, &mut names, k);
         let (mut reads, mut writes) = gen_access(rng, k);
         if k.chain && !regs.is_empty() && rng.chance(2, 3) {
